@@ -590,6 +590,86 @@ func init() {
 			st.States, st.Transitions, st.Nontrivial = st.Execs, st.Execs, st.Execs
 			st.NOutcomes = int(st.Execs)
 		}
+		// the server list of an upstream (order under policy first, multiplicity under round robin): after one update a
+		// running instance distributes like the last configuration says
+		if c.Want("real-proxy-upstream-servers") && c.Shard == 4%c.NShards {
+			st := c.Stat("real-proxy-upstream-servers", "enumeration")
+			st.Bounds = "two loopback origins A, B; upstream server lists {[A B], [B A], [A A B], [A B B]} x policy {first, roundRobin}: every ordered pair of the 8 configurations applied in turn to a running instance, then 6 requests: policy first sends all of them to the first listed server, round robin gives every list slot the same share"
+			var origins [2]*httptest.Server
+			for i := range origins {
+				name := string(rune('A' + i))
+				origins[i] = httptest.NewUnstartedServer(http.HandlerFunc(func(w http.ResponseWriter, r *http.Request) {
+					w.Header().Set("Cache-Control", "no-cache")
+					fmt.Fprint(w, name)
+				}))
+				origins[i].Config.SetKeepAlivesEnabled(false)
+				origins[i].Start()
+			}
+			type ucfg struct {
+				list   string
+				policy string
+			}
+			var menu []ucfg
+			for _, pol := range []string{"first", "roundRobin"} {
+				for _, l := range []string{"AB", "BA", "AAB", "ABB"} {
+					menu = append(menu, ucfg{l, pol})
+				}
+			}
+			mk := func(u ucfg) *config.PikeConfig {
+				var servers []config.UpstreamServerConfig
+				for _, ch := range u.list {
+					servers = append(servers, config.UpstreamServerConfig{Addr: origins[ch-'A'].URL})
+				}
+				return &config.PikeConfig{
+					Caches:    []config.CacheConfig{{Name: "c1", Size: 100, HitForPass: "5m"}},
+					Upstreams: []config.UpstreamConfig{{Name: "u", Policy: u.policy, Servers: servers}},
+					Locations: []config.LocationConfig{{Name: "l", Upstream: "u"}},
+					Servers:   []config.ServerConfig{{Addr: "127.0.0.1:0", Locations: []string{"l"}, Cache: "c1"}},
+				}
+			}
+			want := func(u ucfg) string {
+				if u.policy == "first" {
+					return strings.Repeat(u.list[:1], 6)
+				}
+				n := map[rune]int{}
+				for _, ch := range u.list {
+					n[ch] += 6 / len(u.list)
+				}
+				return strings.Repeat("A", n['A']) + strings.Repeat("B", n['B'])
+			}
+			env.Silence()
+			procEnv = nil
+			for _, first := range menu {
+				for _, last := range menu {
+					env.FreshAll()
+					_ = env.Apply(mk(first))
+					_ = env.Apply(mk(last))
+					e := &env.Env{}
+					e.RebindServersOnly()
+					got := []byte{}
+					for r := 0; r < 6; r++ {
+						res := e.Do(env.Req{Method: "POST", URI: "/x", Rid: "p"})
+						if res.Status == 200 && len(res.Body) == 1 {
+							got = append(got, res.Body[0])
+						} else {
+							got = append(got, '?')
+						}
+					}
+					sort.Slice(got, func(i, j int) bool { return got[i] < got[j] })
+					st.Execs++
+					if string(got) != want(last) {
+						c.Violation("real-proxy-upstream-servers", "live-differs-from-fresh-start-upstream-servers", fmt.Sprintf("upstream servers %v / policy %s replaced by servers %v / policy %s on a running instance: 6 requests were answered by %q (sorted), the last configuration says %q", strings.Split(first.list, ""), first.policy, strings.Split(last.list, ""), last.policy, got, want(last)), nil, map[string]interface{}{"first": first.list + "/" + first.policy, "last": last.list + "/" + last.policy}, nil)
+					}
+				}
+			}
+			env.FreshAll()
+			procEnv = nil
+			for _, o := range origins {
+				o.Close()
+			}
+			st.States, st.Transitions, st.Nontrivial = st.Execs, st.Execs, st.Execs
+			st.NOutcomes = len(menu)
+		}
 		c16RealProcess(c)
 		// one update that removes several servers at once: every one of them stops listening, the kept one serves on
 		if c.Want("remove-several-servers") && c.Shard == 1%c.NShards {
